@@ -179,7 +179,7 @@ pub struct Rich {
 
 impl Rich {
     pub fn new(lo: usize, hi: usize, kinds: Vec<&'static str>) -> Rich {
-        Rich { g: Grammar::new(1, 1, 9, 7, hi), lo, hi, entry_kinds: kinds }
+        Rich { g: Grammar::new(1, 1, 9, 8, hi), lo, hi, entry_kinds: kinds }
     }
 }
 
@@ -225,6 +225,8 @@ impl Family for Rich {
             3 => Msg::Instantiate { code: 1, funds: vec![], label: "sub".into(), admin: None, node: child },
             4 => Msg::Instantiate { code: 2, funds: vec![("x".into(), 1)], label: "sub2".into(), admin: Some("anyone".into()), node: child },
             5 => Msg::Instantiate { code: 3, funds: vec![], label: "nocode".into(), admin: None, node: child },
+            // an instantiation without label: a sub-message that fails when it is dispatched
+            6 => Msg::Instantiate { code: 1, funds: vec![], label: String::new(), admin: None, node: child },
             _ => Msg::Migrate { target: Target::Other, code: 2, node: child },
         }
     }
